@@ -24,15 +24,17 @@
  *   drv_vfiles stick CASEFILE DIR FROM TO    file type memory histories
  * env: VT_TRACE=<path> (default stdout), VFILES_TMP=<scratch directory>
  *
- * c06 case line:   type rows cols nf ext set fmt z0c prec mag fprec twin
+ * c06 case line:   type rows cols nf ext set fmt z0c prec mag fprec twin z0p
  *   type  undef S T U Z Y H G A B Zin      ext  none other npd ts snp
  *   set   auto npd ts1 ts2                 fmt  comma list or "-" (not set)
  *   z0c   equal unequal complex perfreq    prec 1..17 or MAX (dprecision)
  *   fprec 1..17 or MAX (fprecision)        twin 0: cksave, save, fsave on one
  *   object; 1: on three identically built objects (save and fsave then run
  *   on objects vnadata_cksave has not touched)
+ *   z0p   equality pattern of the impedances, one block digit per port
+ *         ("121": ports 1 and 3 share one value, port 2 has another)
  *   mag   -12 0 12 (decimal exponent of the value scale)
- * case id: c06:SEED:INDEX:type:rows:cols:nf:ext:set:fmt:z0c:prec:mag:fprec:twin
+ * case id: c06:SEED:INDEX:type:rows:cols:nf:ext:set:fmt:z0c:prec:mag:fprec:twin:z0p
  */
 #include <complex.h>
 #include <ctype.h>
@@ -273,12 +275,13 @@ typedef struct c06_case {
     char prec[8];
     char fprec[8];
     int twin;
+    char z0p[MAXP + 1];
     int mag;
 } c06_case_t;
 
 static int parse_case_fields(char **fld, int n, c06_case_t *cp)
 {
-    if (n != 12)
+    if (n != 13)
 	return -1;
     snprintf(cp->type, sizeof(cp->type), "%s", fld[0]);
     cp->rows = atoi(fld[1]);
@@ -292,6 +295,9 @@ static int parse_case_fields(char **fld, int n, c06_case_t *cp)
     cp->mag = atoi(fld[9]);
     snprintf(cp->fprec, sizeof(cp->fprec), "%s", fld[10]);
     cp->twin = atoi(fld[11]);
+    snprintf(cp->z0p, sizeof(cp->z0p), "%s", fld[12]);
+    if ((int)strlen(cp->z0p) != (cp->rows > cp->cols ? cp->rows : cp->cols))
+	return -1;
     if (type_from_name(cp->type) < 0 || cp->cols > MAXP || cp->rows > MAXP ||
 	    cp->nf > MAXF || cp->rows < 0 || cp->cols < 0 || cp->nf < 0)
 	return -1;
@@ -353,8 +359,11 @@ static void put_fmts(const char *fmt)
 static void put_cfg(const c06_case_t *cp)
 {
     vt_put("\"cfg\":{\"type\":\"%s\",\"rows\":%d,\"cols\":%d,\"nf\":%d,"
-	    "\"ext\":\"%s\",\"set\":\"%s\",\"z0c\":\"%s\",\"fmts\":",
+	    "\"ext\":\"%s\",\"set\":\"%s\",\"z0c\":\"%s\",\"z0p\":[",
 	    cp->type, cp->rows, cp->cols, cp->nf, cp->ext, cp->set, cp->z0c);
+    for (int i = 0; cp->z0p[i] != '\0'; ++i)
+	vt_put("%s%d", i ? "," : "", cp->z0p[i] - '0');
+    vt_put("],\"fmts\":");
     put_fmts(cp->fmt);
     vt_put("}");
 }
@@ -529,9 +538,9 @@ static void run_c06(const c06_case_t *cp, uint64_t seed, const char *caseid)
 	atoi(cp->prec);
     v.fprec = strcmp(cp->fprec, "MAX") == 0 ? VNADATA_MAX_PRECISION :
 	atoi(cp->fprec);
-    snprintf(cfgkey, sizeof(cfgkey), "%s:%d:%d:%d:%s:%s:%s:%s:%s:%d:%s",
+    snprintf(cfgkey, sizeof(cfgkey), "%s:%d:%d:%d:%s:%s:%s:%s:%s:%d:%s:%s",
 	    cp->type, cp->rows, cp->cols, cp->nf, cp->ext, cp->set, cp->fmt,
-	    cp->z0c, cp->prec, cp->mag, cp->fprec);
+	    cp->z0c, cp->prec, cp->mag, cp->fprec, cp->z0p);
     vt_seed(&rng, seed ^ hash_str(cfgkey));
 
     vt_put("{\"e\":\"Reset\",\"case\":\"%s\"}", caseid);
@@ -560,27 +569,34 @@ static void run_c06(const c06_case_t *cp, uint64_t seed, const char *caseid)
 	 */
 	double zeq = zpool[vt_below(&rng, 7)];
 	int ugly = vt_below(&rng, 3) != 0;
+	int complex_kind = strcmp(cp->z0c, "complex") == 0;
+	int perf_kind = strcmp(cp->z0c, "perfreq") == 0;
+	double wr[MAXP + 1], wi[MAXP + 1];
 
-	if (ugly && strcmp(cp->z0c, "equal") == 0 && vt_below(&rng, 2) == 0)
+	/*
+	 * One value per block of the equality pattern: ports of the same
+	 * block get bit-identical impedances, different blocks different
+	 * ones (block b: zeq * (1 + 0.37 (b-1)) times a random factor).
+	 */
+	if (ugly && vt_below(&rng, 2) == 0)
 	    zeq *= 1.0 + 0.013 * vt_unit(&rng);
+	for (int b = 0; b <= MAXP; ++b) {
+	    wr[b] = (ugly && b > 1) ? 1.0 + 0.011 * vt_unit(&rng) : 1.0;
+	    wi[b] = ugly ? 1.0 + 0.017 * vt_unit(&rng) : 1.0;
+	}
 	for (int f = 0; f < (cp->nf > 0 ? cp->nf : 1); ++f) {
 	    for (int p = 0; p < v.ports; ++p) {
-		double wr = ugly ? 1.0 + 0.011 * vt_unit(&rng) : 1.0;
-		double wi = ugly ? 1.0 + 0.017 * vt_unit(&rng) : 1.0;
+		int b = cp->z0p[p] - '0';
+		double re = wr[b] * zeq * (1.0 + 0.37 * (b - 1));
+		double im = 0.0;
 
-		if (strcmp(cp->z0c, "equal") == 0) {
-		    v.z0[f][p] = zeq;
-		} else if (strcmp(cp->z0c, "unequal") == 0) {
-		    v.z0[f][p] = wr * (zeq * (1.0 + 0.37 * p) +
-			    (v.ports == 1 ? 3.0 : 0.0));
-		} else if (strcmp(cp->z0c, "complex") == 0) {
-		    v.z0[f][p] = wr * zeq * (1.0 + 0.21 * p) +
-			I * wi * (p == v.ports - 1 ? 7.5 :
-				(p % 2 ? -3.25 : 0.0));
-		} else {
-		    v.z0[f][p] = wr * zeq * (1.0 + 0.21 * p + 0.1 * f) +
-			I * wi * (2.0 * f - 1.5 * p + 0.5);
+		if (complex_kind)
+		    im = wi[b] * (b % 2 ? 7.5 + b : -3.25 * b);
+		if (perf_kind) {
+		    re *= 1.0 + 0.1 * f;
+		    im = wi[b] * (2.0 * f - 1.5 * b + 0.5);
 		}
+		v.z0[f][p] = re + I * im;
 	    }
 	}
     }
@@ -747,10 +763,10 @@ static int c06_from_id(const char *caseid, c06_case_t *cp, uint64_t *seed)
 
     snprintf(buf, sizeof(buf), "%s", caseid);
     n = split(buf, ":", fld, 16);
-    if (n != 15 || strcmp(fld[0], "c06") != 0)
+    if (n != 16 || strcmp(fld[0], "c06") != 0)
 	return -1;
     *seed = strtoull(fld[1], NULL, 10);
-    return parse_case_fields(&fld[3], 12, cp);
+    return parse_case_fields(&fld[3], 13, cp);
 }
 
 static int mode_c06(const char *casefile, uint64_t seed, long from, long to)
@@ -783,9 +799,9 @@ static int mode_c06(const char *casefile, uint64_t seed, long from, long to)
 	    return 4;
 	}
 	snprintf(caseid, sizeof(caseid),
-		"c06:%llu:%ld:%s:%d:%d:%d:%s:%s:%s:%s:%s:%d:%s:%d",
+		"c06:%llu:%ld:%s:%d:%d:%d:%s:%s:%s:%s:%s:%d:%s:%d:%s",
 		(unsigned long long)seed, idx, c.type, c.rows, c.cols, c.nf,
-		c.ext, c.set, c.fmt, c.z0c, c.prec, c.mag, c.fprec, c.twin);
+		c.ext, c.set, c.fmt, c.z0c, c.prec, c.mag, c.fprec, c.twin, c.z0p);
 	run_c06(&c, seed, caseid);
 	++idx;
     }
@@ -796,27 +812,27 @@ static int mode_c06(const char *casefile, uint64_t seed, long from, long to)
 /* ------------------------------------------------------------- C08 mode */
 
 /*
- * Manifest line (written by families/vfiles.py from the spelling table):
- *   idx cls var  pathA nameA setA methA  pathB nameB setB methB
- * "-" stands for an empty name suffix.  One episode per line: the two
- * spellings of the same content are loaded into fresh objects and their
- * projections through the public getters recorded.
+ * Load one spelling and record the outcome and the projection of the object
+ * through the public getters.  reused == NULL: into a fresh object.
  */
-static void c08_load(const char *which, const char *path, const char *name,
+static void c08_load(vnadata_t *reused, const char *grp, int pos,
+	const char *which, const char *path, const char *name,
 	const char *set, const char *meth)
 {
-    vnadata_t *vdp;
+    vnadata_t *vdp = reused;
     vnadata_filetype_t ft;
     int rv, e;
 
-    vdp = LIB(vnadata_alloc(vt_errfn, NULL));
-    if (vdp == NULL)
-	_exit(5);
+    if (vdp == NULL) {
+	vdp = LIB(vnadata_alloc(vt_errfn, NULL));
+	if (vdp == NULL)
+	    _exit(5);
+    }
     if (ft_from_name(set, &ft) != 0)
 	_exit(4);
     if (ft != VNADATA_FILETYPE_AUTO)
 	(void)LIB(vnadata_set_filetype(vdp, ft));
-    if (strcmp(meth, "reuse") == 0) {
+    if (strcmp(meth, "reuse") == 0 && reused == NULL) {
 	/*
 	 * The object already holds unrelated data: another type, other
 	 * dimensions, more frequencies, per-frequency impedances and a
@@ -847,8 +863,8 @@ static void c08_load(const char *which, const char *path, const char *name,
 	rv = LIB(vnadata_load(vdp, path));
 	e = errno;
     }
-    vt_put("{\"e\":\"SLoad\",\"which\":\"%s\",\"meth\":\"%s\",\"set\":\"%s\",",
-	    which, meth, set);
+    vt_put("{\"e\":\"SLoad\",\"grp\":\"%s\",\"pos\":%d,\"which\":\"%s\","
+	    "\"meth\":\"%s\",\"set\":\"%s\",", grp, pos, which, meth, set);
     put_outcome(rv == 0, e);
     put_msg_class();
     vt_put(",\"ftAfter\":\"%s\",\"p\":{",
@@ -856,9 +872,19 @@ static void c08_load(const char *which, const char *path, const char *name,
     put_projection(vdp, rv == 0);
     vt_put("}}");
     vt_end_line();
-    LIBV(vnadata_free(vdp));
+    if (reused == NULL)
+	LIBV(vnadata_free(vdp));
 }
 
+/*
+ * Manifest line (written by families/vfiles.py from the spelling table):
+ *   idx cls var  pathA nameA setA methA  pathB nameB setB methB  order prelude
+ * One episode per line: the two spellings of the same content are loaded
+ * into fresh objects; then ONE object loads the prelude file (a file of
+ * another kind: NPD before Touchstone spellings, Touchstone before NPD
+ * ones, or the other Touchstone version) and after it both spellings in the
+ * given order (ab | ba) -- what an object held before must not matter.
+ */
 static int mode_c08(const char *manifest, const char *seed, long from, long to)
 {
     FILE *fp = fopen(manifest, "r");
@@ -871,7 +897,8 @@ static int mode_c08(const char *manifest, const char *seed, long from, long to)
     }
     while (fgets(line, sizeof(line), fp) != NULL) {
 	char *fld[16];
-	int n;
+	vnadata_t *chain;
+	int n, rv, e, ab;
 
 	if (idx >= to)
 	    break;
@@ -880,15 +907,36 @@ static int mode_c08(const char *manifest, const char *seed, long from, long to)
 	    continue;
 	}
 	n = split(line, " \t\r\n", fld, 16);
-	if (n != 11) {
+	if (n != 13) {
 	    fprintf(stderr, "bad manifest line %ld\n", idx);
 	    return 4;
 	}
 	vt_put("{\"e\":\"Reset\",\"case\":\"c08:%s:%s:%s:%s\"}", seed, fld[0],
 		fld[1], fld[2]);
 	vt_end_line();
-	c08_load("a", fld[3], fld[4], fld[5], fld[6]);
-	c08_load("b", fld[7], fld[8], fld[9], fld[10]);
+	c08_load(NULL, "fresh", 1, "a", fld[3], fld[4], fld[5], fld[6]);
+	c08_load(NULL, "fresh", 2, "b", fld[7], fld[8], fld[9], fld[10]);
+	/* one object, loaded three times */
+	chain = LIB(vnadata_alloc(vt_errfn, NULL));
+	if (chain == NULL)
+	    _exit(5);
+	vt_cb_reset();
+	rv = LIB(vnadata_load(chain, fld[12]));
+	e = errno;
+	vt_put("{\"e\":\"PLoad\",");
+	put_outcome(rv == 0, e);
+	put_msg_class();
+	vt_put(",\"ftAfter\":\"%s\"}", ft_name(LIB(vnadata_get_filetype(chain))));
+	vt_end_line();
+	ab = strcmp(fld[11], "ab") == 0;
+	if (ab) {
+	    c08_load(chain, "chain", 1, "a", fld[3], fld[4], fld[5], fld[6]);
+	    c08_load(chain, "chain", 2, "b", fld[7], fld[8], fld[9], fld[10]);
+	} else {
+	    c08_load(chain, "chain", 1, "b", fld[7], fld[8], fld[9], fld[10]);
+	    c08_load(chain, "chain", 2, "a", fld[3], fld[4], fld[5], fld[6]);
+	}
+	LIBV(vnadata_free(chain));
 	vt_put("{\"e\":\"End\",\"live\":%ld}", vt_alloc_live);
 	vt_end_line();
 	++idx;
